@@ -179,6 +179,8 @@ def _cipher(case, R, d):
         return
     expect = "xor" if method == "xor" else "aes"
     R.check(concrete == expect, "concrete", method, "method %r resolved to %r" % (method, concrete))
+    # ... for EVERY value of a session, not only the first one
+    R.check(sv_b.method == expect, "concrete", method + ":second-in-session", "the second value encrypted in one session records method %r" % (sv_b.method,))
     R.check(isinstance(sv.ciphertext, bytes), "ciphertext-type", concrete, type(sv.ciphertext).__name__)
     R.check(back == p, "invert", concrete + ":same-object", lambda: "decrypt(encrypt(%r)) = %r" % (p, back))
 
